@@ -43,12 +43,24 @@ def content(kind, payload):
     return PyV.tup2(mk_int(kind), payload)
 
 
+class FileNameS(SymS):
+    """Path.name of a path whose last component was built as <stem> + '.ext' (ext a dot-free constant): a str that remembers
+    how it was built, so that rpartition('.') needs no string solving"""
+    __slots__ = ('stem', 'ext')
+
+    def __init__(self, t, stem, ext):
+        super().__init__(t)
+        self.stem, self.ext = stem, ext
+
+
 class PathV:
     """pathlib.Path as its string"""
 
-    def __init__(self, s, suffix=None):
+    def __init__(self, s, suffix=None, stem_empty=None, last=None):
         self.s = s if not isinstance(s, str) else z3.StringVal(s)
         self.known_suffix = suffix     # constant '.ext' when the name was built as <anything> + '.ext' (ext dot-free)
+        self.stem_empty = stem_empty   # z3 Bool: the part of the name before that '.ext' is empty (None: known non-empty)
+        self.last = last               # the last component as it was appended (when it is known to hold no '/')
 
     def __repr__(self):
         return f'PathV({self.s})'
@@ -67,14 +79,17 @@ class PathV:
         else:
             o = it.as_str(it.to_str(other))
         used(it, FSAX + 'Path / x appends "/" and str(x)')
-        suffix = None
+        suffix, stem_empty = None, None
         o_s = z3.simplify(o)
         last = o_s.arg(o_s.num_args() - 1) if z3.is_app(o_s) and o_s.decl().kind() == z3.Z3_OP_SEQ_CONCAT else o_s
         if z3.is_string_value(last):
             txt = last.as_string()
             if '.' in txt and '/' not in txt:
                 suffix = txt[txt.rindex('.'):]
-        return PathV(z3.Concat(self.s, z3.StringVal('/'), o), suffix)
+                stem_empty = z3.simplify(z3.Length(o_s) == len(suffix))
+                if z3.is_false(stem_empty):
+                    stem_empty = None
+        return PathV(z3.Concat(self.s, z3.StringVal('/'), o), suffix, stem_empty, o if suffix is not None else None)
 
     def sym_getattr(self, it, name):
         st = it.st
@@ -106,8 +121,19 @@ class PathV:
                 it_.st.emit('fs_unlink', path=self)
                 it_.st.setf(fs, 'files', files.drop(self.key()))
             return LibFn('Path.unlink', unlink)
+        if name == 'name' and self.known_suffix is not None and self.last is not None:
+            used(it, FSAX + 'Path.name is the last component')
+            n = len(self.known_suffix)
+            if st.branch(z3.Contains(self.last, z3.StringVal('/')), 'tail-has-several-components'):
+                raise Unsupported('Path.name of a path whose appended tail contains "/"')
+            return FileNameS(self.last, z3.SubString(self.last, 0, z3.Length(self.last) - n), self.known_suffix[1:])
         if name == 'suffix' and self.known_suffix is not None:
-            used(it, FSAX + 'Path.suffix of a name built as <prefix> + ".ext" with a dot-free constant ext is ".ext" (string lemma)')
+            used(it, FSAX + 'Path.suffix of a name built as <prefix> + ".ext" with a dot-free constant ext is ".ext" when the prefix '
+                        'is not empty, and "" when it is (a name that is only ".ext" is a dot-file without suffix) (string lemma)')
+            if self.stem_empty is None:
+                return self.known_suffix
+            if it.st.branch(self.stem_empty, 'dot-file-name'):
+                return ''
             return self.known_suffix
         if name == 'suffix':
             used(it, FSAX + 'Path.suffix is the part of the name from its last "." (empty if none)')
@@ -249,6 +275,15 @@ class FsPlugin:
             return (LibFn(dotted, self.json_load),)
         if dotted in ('pickle', 'json', 'pathlib', 'io'):
             return (LibRef(dotted),)
+        return None
+
+    def str_method(self, it, s, name, ca):
+        if isinstance(s, FileNameS) and name in ('rpartition', 'rsplit') and ca.args and ca.args[0] == '.':
+            used(it, FSAX + 'rpartition(".") / rsplit(".", 1) of a file name built as <stem> + ".ext" (ext dot-free): (stem, ".", ext)')
+            if name == 'rpartition' and len(ca.args) == 1:
+                return ((SymS(s.stem), '.', s.ext),)
+            if name == 'rsplit' and len(ca.args) == 2 and ca.args[1] == 1:
+                return (it.new_list((SymS(s.stem), s.ext)),)
         return None
 
     def make_path(self, it, ca):
